@@ -192,7 +192,7 @@ def render_program(prog, layout, rng):
     if prog["wires"]:
         decl.append("wire " + f",{sp}".join(ident(w) for w in prog["wires"]) + ";")
     body = []
-    for st in prog["stmts"]:
+    for si, st in enumerate(prog["stmts"]):
         if st[0] == "prim":
             insts = [f"{inst}{sp}({sp}{ident(out)}{sp},{sp}" + f"{sp},{sp}".join(render_expr(o, full, rng, 0, " " if sp == "" else sp) for o in ops) + f"{sp})" for inst, out, ops in st[2]]
             body.append(f"{st[1]} " + f",{sp}".join(insts) + ";")
@@ -203,7 +203,10 @@ def render_program(prog, layout, rng):
             pins = []
             for p, e in conns.items():
                 pins.append(f".{p}({render_expr(e, full, rng, 0, ' ') if e is not None else ''})")
-            body.append(f"{bbname} {inst}{sp}({sp}" + f",{sp}".join(pins) + f"{sp});")
+            if si in prog.get("merge", ()) and body and body[-1].startswith(bbname + " "):
+                body[-1] = body[-1][:-1] + f"{sp},{sp if sp else ' '}{inst}{sp}({sp}" + f",{sp}".join(pins) + f"{sp});"
+            else:
+                body.append(f"{bbname} {inst}{sp}({sp}" + f",{sp}".join(pins) + f"{sp});")
     if shuffle:
         rng.shuffle(body)
         if layout % 5 == 0:
@@ -258,6 +261,7 @@ def gen_program(rng, pool="plain", nstmts=6, depth=3, consts=("0", "1"), boxes=T
         return n
 
     stmts, wires, bb_used = [], [], {}
+    merge = []  # indices of box statements that are written into the previous statement
     instn = [0]
 
     def inst():
@@ -309,30 +313,34 @@ def gen_program(rng, pool="plain", nstmts=6, depth=3, consts=("0", "1"), boxes=T
         else:
             bbname = rng.choice(sorted(BOXES))
             ins_, outs_ = BOXES[bbname]
-            conns = {}
-            for p in ins_:
-                q = rng.random()
-                if q < 0.7:
-                    conns[p] = ("id", rng.choice(avail))
-                elif q < 0.8:
-                    conns[p] = gen_expr(rng, avail, 1, consts, top=False)
-                elif q < 0.9:
-                    conns[p] = None
-            defined = []
-            for p in outs_:
-                q = rng.random()
-                if q < 0.75:
-                    o = newnet("nets")
-                    conns[p] = ("id", o)
-                    defined.append(o)
-                elif q < 0.85:
-                    conns[p] = None
-            items = list(conns.items())
-            rng.shuffle(items)
-            stmts.append(("box", bbname, inst(), dict(items)))
-            bb_used[bbname] = BOXES[bbname]
-            avail += defined
-            wires += defined
+            # one instance, or two instances of the same box in ONE statement (`ff U1(...), U2(...);`), each with its own connections
+            for j in range(2 if rng.random() < 0.35 else 1):
+                conns = {}
+                for p in ins_:
+                    q = rng.random()
+                    if q < 0.7:
+                        conns[p] = ("id", rng.choice(avail))
+                    elif q < 0.8:
+                        conns[p] = gen_expr(rng, avail, 1, consts, top=False)
+                    elif q < 0.9:
+                        conns[p] = None
+                defined = []
+                for p in outs_:
+                    q = rng.random()
+                    if q < 0.75:
+                        o = newnet("nets")
+                        conns[p] = ("id", o)
+                        defined.append(o)
+                    elif q < 0.85:
+                        conns[p] = None
+                items = list(conns.items())
+                rng.shuffle(items)
+                if j == 1:
+                    merge.append(len(stmts))
+                stmts.append(("box", bbname, inst(), dict(items)))
+                bb_used[bbname] = BOXES[bbname]
+                avail += defined
+                wires += defined
     used = set()
     for st in stmts:
         if st[0] == "prim":
@@ -356,4 +364,4 @@ def gen_program(rng, pool="plain", nstmts=6, depth=3, consts=("0", "1"), boxes=T
         outputs = [wires[-1]] if wires else [inputs[0]]
     # rename outputs that the pool wants to look special: keep names (they are declared nets)
     wires = [w for w in wires if w not in outputs]
-    return {"name": name, "inputs": inputs, "outputs": outputs, "wires": wires, "stmts": stmts, "bbs": bb_used}
+    return {"name": name, "inputs": inputs, "outputs": outputs, "wires": wires, "stmts": stmts, "bbs": bb_used, "merge": merge}
